@@ -1318,3 +1318,600 @@ class ExprI:
         if v.ty == t or (v.ty[0] == 'wrap' and t[0] in ('wrap', 'int') and v.ty[1] == t[1]):
             return v
         return V(t, 'cexpr', '(.cast %s %s)' % (cty(t), v.term), uses=v.uses)
+
+
+def is_this_deref(e):
+    return e[0] == 'un' and e[1] == '*' and e[2] == ('this',)
+
+
+def paren(t):
+    return t if re.fullmatch(r'[\w.]+|\(.*\)|⟨.*⟩', t) and t.count('(') == t.count(')') else '(%s)' % t
+
+
+class GroupI(ExprI):
+    """a member function of flat_group_base / nested_group_base in model I"""
+
+    def __init__(self, model, cname, meth):
+        self.model = model
+        self.cname = cname
+        self.m = meth
+        self.ns = NS_I[cname]
+        self.ci = model.classes[cname]
+        self.binding = dict(model.group_binding[cname])
+        for tp in meth.tparams:
+            self.binding.setdefault(tp, ('tparam', tp))
+        self.kind, self.ibinding = model.iter_kind_of(cname)
+        self.body = Body()
+        self.env = {}
+        self.vars = {}
+        self.needs = set()
+        self.assert_idx = 0
+        self.writes = 0
+        self.returned = False
+        self.cparams = []
+        self.cret = None
+
+    def resolve(self, sp):
+        return self.model.types.resolve(sp, self.ci, self.binding)
+
+    def has_method(self, key):
+        return any(method_key(m) == key for m in self.ci.methods)
+
+    # ---- calls
+    def callargs(self, callee):
+        s = 'NT BT chk'
+        if 'write' in callee.needs:
+            s += ' lay'
+        s += ' g'
+        if 'write' in callee.needs:
+            s += ' buf hoff'
+        if 'esize' in callee.needs:
+            s += ' esize'
+        if 'fuel' in callee.needs:
+            s += ' fuel'
+        return s
+
+    def as_cval(self, v):
+        if v.cval is not None:
+            return v.cval
+        if v.lit is not None:
+            return '⟨.i32, %d⟩' % v.lit
+        c = self.to_cexpr(v)
+        name = self.body.fresh()
+        xp, xv = self.xpxv(c.uses)
+        self.body.emit('let %s ← value NT BT g %s %s %s' % (name, xp, xv, c.term))
+        return name
+
+    def bind_result(self, callee_repr, cret, callstr, pure, hint):
+        name = self.body.fresh(hint)
+        self.body.emit('let %s %s %s' % (name, ':=' if pure else '←', callstr))
+        self.last_hoist = (name, callstr, len(self.body.lines) - 1, pure)
+        if callee_repr == 'unit':
+            return V(DIM, 'lean', name)
+        if callee_repr == 'nat':
+            self.vars[name] = ('.u64', name)
+            return V(INT('size_t'), 'cexpr', '(.var "%s")' % name, uses=(name,))
+        if callee_repr == 'cval':
+            self.vars[name] = (cty(cret), name + '.bits')
+            return V(cret, 'cexpr', '(.var "%s")' % name, uses=(name,), cval=name)
+        if callee_repr == 'bool':
+            return V(INT('bool'), 'lean', name)
+        if callee_repr == 'iter':
+            return V(cret, 'lean', name)
+        if callee_repr == 'entry':
+            return V(ENTRY, 'lean', name)
+        if callee_repr == 'buf':
+            return V(('buf',), 'lean', name)
+        if callee_repr == 'void':
+            return V(VOID, 'lean', name)
+        raise ExtractError('result representation %s' % callee_repr)
+
+    def call_method(self, key, args, hint=None):
+        if not self.has_method(key):
+            raise ExtractError('%s has no member function %s' % (self.cname, key))
+        callee = self.model.translate(self.cname, key)
+        self.needs |= callee.needs & {'write', 'esize', 'fuel'}
+        if len(args) != len(callee.cparams):
+            raise ExtractError('%s called with %d arguments, takes %d' % (key, len(args), len(callee.cparams)))
+        argv = [self.as_cval(self.ex(a)) for a in args]
+        callstr = '%s %s%s' % (callee.name, self.callargs(callee), ''.join(' ' + a for a in argv))
+        if 'write' in callee.needs:
+            if self.writes:
+                callstr = '(match mbuf with | some buf => %s | none => pure none)' % callstr
+            self.writes += 1
+            return self.bind_result('buf', callee.cret, callstr, False, 'mbuf' if self.writes > 1 else hint)
+        return self.bind_result(callee.repr, callee.cret, callstr, callee.pure, hint)
+
+    def size_bytes_of(self, v):
+        if v.ty == DIM:
+            return V(INT('size_t'), 'cexpr', '(.var "hdr")')
+        if v.ty == ENTRY:
+            self.needs.add('esize')
+            name = self.body.fresh()
+            self.body.emit('let %s := esize %s' % (name, paren(v.term)))
+            self.vars[name] = ('.u64', name)
+            return V(INT('size_t'), 'cexpr', '(.var "%s")' % name, uses=(name,))
+        raise ExtractError('sbepp::size_bytes of a %s value' % (v.ty[0],))
+
+    def construct_iter(self, kind, args, hint=None):
+        icls = ITER_CLASS[kind]
+        callee = self.model.translate(icls, 'ctor')
+        if len(args) != len(callee.cparams):
+            raise ExtractError('%s{...} with %d arguments, the constructor takes %d' % (icls, len(args), len(callee.cparams)))
+        vs = [self.to_cexpr(self.ex(a)) for a in args]
+        xp, xv = self.xpxv(merge_uses(*vs))
+        callstr = '%s.ctor NT BT chk g %s %s %s' % (NS_I[icls], xp, xv, ' '.join(v.term for v in vs))
+        return self.bind_result('iter', ('iter', kind), callstr, False, hint)
+
+    def iter_unop(self, op, a):
+        kind = a.ty[1]
+        icls = ITER_CLASS[kind]
+        if op == '*':
+            d = self.model.translate(icls, 'deref')
+            if not d.pure:
+                return self.bind_result('entry', ENTRY, '%s.deref chk %s' % (NS_I[icls], a.term), False, None)
+            return V(ENTRY, 'lean', '%s.deref chk %s' % (NS_I[icls], a.term))
+        if kind == 'ra' and op == '--':
+            return self.bind_result('iter', a.ty, 'Rt.dec NT BT %s' % a.term, False, None)
+        if kind == 'ra' and op == '++':
+            return self.bind_result('iter', a.ty, 'Rt.inc NT BT chk %s' % a.term, False, None)
+        if kind == 'fwd' and op == '++':
+            inc = self.model.translate(icls, 'inc')
+            self.needs |= inc.needs & {'esize'}
+            return self.bind_result('iter', a.ty, 'Fwd.inc NT BT chk%s %s' % (' esize' if 'esize' in inc.needs else '', a.term),
+                                    False, None)
+        raise ExtractError('operator %s on a %s iterator' % (op, ITER_CLASS[kind]))
+
+    def iter_binop(self, op, a, b):
+        if a.ty[1] != 'ra':
+            raise ExtractError('operator %s on a forward iterator' % op)
+        if b.kind == 'lean' and b.ty[0] == 'iter':
+            if op == '-':
+                name = self.body.fresh()
+                self.body.emit('let %s ← Rt.diff NT %s %s' % (name, a.term, b.term))
+                self.vars[name] = ('(diffTy NT)', name + '.bits')
+                return V(INT('DT'), 'cexpr', '(.var "%s")' % name, uses=(name,), cval=name)
+            names = {'<': 'lt', '<=': 'le', '>': 'gt', '>=': 'ge', '==': 'eq', '!=': 'ne'}
+            if op in names:
+                name = self.body.fresh()
+                self.body.emit('let %s ← Rt.compare NT "%s" %s %s' % (name, names[op], a.term, b.term))
+                return V(INT('bool'), 'lean', name)
+            raise ExtractError('operator %s on two iterators' % op)
+        n = self.as_cval(b)
+        if op == '+':
+            return self.bind_result('iter', a.ty, 'Rt.plus NT BT %s %s' % (a.term, n), False, None)
+        if op == '-':
+            return self.bind_result('iter', a.ty, 'Rt.minus NT BT %s %s' % (a.term, n), False, None)
+        raise ExtractError('operator %s on an iterator and an integer' % op)
+
+    # ---- expressions
+    def ex(self, e, hint=None):
+        k = e[0]
+        if k == 'num':
+            return self.lit(e)
+        if k == 'bool':
+            return V(INT('bool'), 'cexpr', '(.lit .bool %d)' % (1 if e[1] else 0))
+        if k == 'nullptr':
+            return V(PTR, 'cexpr', '(.lit .ptr 0)')
+        if k == 'name':
+            if e[2] is None and e[1] in self.env:
+                return self.env[e[1]]
+            raise ExtractError('unknown name %s' % e[1])
+        if k == 'cast':
+            return self.cast(e[1], self.ex(e[2]))
+        if k == 'bin':
+            a = self.ex(e[2])
+            b = self.ex(e[3])
+            if e[1] == '+' and b.kind == 'lean' and b.ty[0] == 'iter' and not (a.kind == 'lean' and a.ty[0] == 'iter'):
+                a, b = b, a                 # `n + it` is `it + n`
+            return self.binop(e[1], a, b)
+        if k == 'un':
+            if is_this_deref(e):
+                return V(('thisobj',), 'lean', 'this')
+            a = self.ex(e[2])
+            if a.kind == 'lean' and a.ty[0] == 'iter':
+                return self.iter_unop(e[1], a)
+            if e[1] == '!' and a.kind == 'lean' and a.ty == INT('bool'):
+                return V(INT('bool'), 'lean', '!%s' % paren(a.term))
+            return self.unop(e[1], a)
+        if k == 'cond':
+            c, a, b = (self.to_cexpr(self.ex(x)) for x in e[1:4])
+            return V(a.ty if a.ty == b.ty else INT('?'), 'cexpr', '(.cond %s %s %s)' % (c.term, a.term, b.term),
+                     uses=merge_uses(c, a, b))
+        if k == 'call':
+            return self.call(e, hint)
+        if k == 'brace':
+            return self.brace(e, hint)
+        if k == 'index':
+            o = self.ex(e[1])
+            if o.kind == 'lean' and o.ty[0] == 'iter' and o.ty[1] == 'ra':
+                n = self.as_cval(self.ex(e[2]))
+                return self.bind_result('entry', ENTRY, 'Rt.subscriptIt NT BT %s %s' % (o.term, n), False, hint)
+            if o.ty == ('thisobj',):
+                return self.call_method('subscript', [e[2]], hint)
+            raise ExtractError('operator[] on a %s value' % (o.ty[0],))
+        raise ExtractError('expression form %s is not translated' % k)
+
+    def call(self, e, hint):
+        fn, args = e[1], e[2]
+        if is_this_deref(fn) or (fn[0] == 'name' and fn[1] == 'operator()') \
+                or (fn[0] == 'member' and fn[1] == ('this',) and fn[2] == 'operator'):
+            if not args or args[0][0] != 'brace' or not (args[0][1] or '').endswith('_tag') or args[0][2]:
+                raise ExtractError('call of *this without a tag argument')
+            tag = args[0][1]
+            if tag == 'addressof_tag' and len(args) == 1:
+                return V(PTR, 'cexpr', '(.var "addr")')
+            if tag == 'end_ptr_tag' and len(args) == 1:
+                return V(PTR, 'cexpr', '(.var "end")')
+            return self.call_method(tag[:-len('_tag')], args[1:], hint)
+        if fn[0] == 'name':
+            n = strip_ns(fn[1])
+            if n == 'size_bytes' and len(args) == 1:
+                return self.size_bytes_of(self.ex(args[0]))
+            if n == 'operator[]' and len(args) == 1:
+                return self.call_method('subscript', args, hint)
+            if fn[2] is None and n not in self.env and self.has_method(n):
+                return self.call_method(n, args, hint)
+            raise ExtractError('call of unknown function %s' % fn[1])
+        if fn[0] == 'member':
+            obj, name = fn[1], fn[2]
+            if obj == ('this',):
+                return self.call_method(name, args, hint)
+            o = self.ex(obj)
+            if o.ty == ('thisobj',):
+                return self.call_method(name, args, hint)
+            if o.ty == DIM:
+                if name in HEADER_FIELDS:
+                    t = HEADER_FIELDS[name]
+                    if not args:
+                        return V(('wrap', t), 'cexpr', '(.var "%s")' % {'NT': 'num', 'BT': 'bl'}[t])
+                    if len(args) == 1:
+                        return V(('setter', t), 'lean', None, cval=self.as_cval(self.ex(args[0])))
+                raise ExtractError('header member %s with %d arguments' % (name, len(args)))
+            if o.ty[0] == 'wrap' and name == 'value' and not args:
+                return V(INT(o.ty[1]), 'cexpr', o.term, uses=o.uses, cval=o.cval)
+            raise ExtractError('member call .%s on a %s value' % (name, o.ty[0]))
+        raise ExtractError('call form is not translated')
+
+    def brace(self, e, hint):
+        if e[1] is None:
+            raise ExtractError('untyped braced initialiser outside return')
+        t = self.resolve(e[1])
+        if t[0] == 'tag' and not e[2]:
+            return V(t, 'lean', e[1])
+        if t[0] == 'iter':
+            return self.construct_iter(t[1], e[2], hint)
+        raise ExtractError('construction of %s is not translated' % e[1])
+
+    # ---- statements
+    def check(self, idx, build_final):
+        """`assertM chk idx (do <hoisted calls>; <final>)`"""
+        saved = self.body.lines
+        self.body.lines = []
+        self.body.ind += 1
+        try:
+            final = build_final()
+            inner = self.body.lines
+        finally:
+            self.body.lines = saved
+            self.body.ind -= 1
+        if not inner:
+            self.body.emit('assertM chk %d (%s)' % (idx, final))
+        else:
+            self.body.emit('assertM chk %d (do' % idx)
+            self.body.lines += inner
+            self.body.emit(final + ')', self.body.ind + 1)
+        self.last_hoist = None
+
+    def truth_of(self, v):
+        if v.kind == 'lean' and v.ty == INT('bool'):
+            return 'pure %s' % paren(v.term)
+        c = self.to_cexpr(v)
+        xp, xv = self.xpxv(c.uses)
+        return 'truth NT BT g %s %s %s' % (xp, xv, c.term)
+
+    def stmt(self, s):
+        if self.returned:
+            raise ExtractError('statement after return')
+        k = s[0]
+        if k == 'assert':
+            idx = self.assert_idx
+            self.assert_idx += 1
+            self.check(idx, lambda: self.truth_of(self.ex(s[1])))
+        elif k == 'sizecheck':
+            idx = self.assert_idx
+            self.assert_idx += 1
+
+            def fin():
+                vs = [self.to_cexpr(self.ex(a)) for a in s[1]]
+                xp, xv = self.xpxv(merge_uses(*vs))
+                return 'truth NT BT g %s %s (Macro.SBEPP_SIZE_CHECK %s)' % (xp, xv, ' '.join(v.term for v in vs))
+            self.check(idx, fin)
+        elif k == 'decl':
+            self.decl(s[1], s[2], s[3])
+        elif k == 'expr':
+            self.expr_stmt(s[1])
+        elif k == 'return':
+            self.ret(s[1])
+        elif k == 'block':
+            for x in s[1]:
+                self.stmt(x)
+        elif k == 'rangefor':
+            self.rangefor(s[1], s[2], s[3])
+        else:
+            raise ExtractError('statement form `%s` is not translated here' % k)
+
+    def decl(self, ty, name, init):
+        t = ('auto',) if ty == 'auto' else self.resolve(ty)
+        if t == DIM and init[0] == 'brace' and init[1] == ty:
+            args = init[2]
+            vs = [self.ex(a) for a in args]
+            if len(vs) != 2 or vs[0].term != '(.var "addr")' or vs[1].term != '(.var "end")':
+                raise ExtractError('a Dimension header over something else than the view\'s own [addr, end) is not representable')
+            ln = self.body.fresh(name)
+            self.body.emit('let %s := ()' % ln)
+            self.env[name] = V(DIM, 'lean', ln)
+            return
+        if init[0] == 'brace' and init[1] == ty and t[0] == 'int' and len(init[2]) == 1:
+            init = init[2][0]
+        v = self.ex(init, hint=name)
+        if v.kind == 'lean':
+            if t != ('auto',) and t != v.ty and not (t[0] == v.ty[0] == 'iter'):
+                raise ExtractError('%s %s initialised with a %s value' % (ty, name, v.ty[0]))
+            if not re.fullmatch(r'\w+', v.term or ''):
+                ln = self.body.fresh(name)
+                self.body.emit('let %s := %s' % (ln, v.term))
+                v = V(v.ty, 'lean', ln)
+            self.env[name] = v
+            return
+        if t == ('auto',):
+            if v.ty == INT('?'):
+                raise ExtractError('`auto %s` of an arithmetic expression: the type is not tracked' % name)
+            t = INT(v.ty[1]) if v.ty[0] == 'wrap' else v.ty
+        if t[0] != 'int' and t != PTR:
+            raise ExtractError('local variable %s of type %s' % (name, ty))
+        c = self.convert_to(v, t)
+        ln = self.body.fresh(name)
+        xp, xv = self.xpxv(c.uses)
+        self.body.emit('let %s ← value NT BT g %s %s %s' % (ln, xp, xv, c.term))
+        self.body.emit('let %s := %s.bits' % (ln, ln))
+        self.vars[ln] = (cty(t), ln)
+        self.env[name] = V(t, 'cexpr', '(.var "%s")' % ln, uses=(ln,))
+        self.last_hoist = None
+
+    def local_target(self, e):
+        if e[0] == 'name' and e[2] is None and e[1] in self.env:
+            v = self.env[e[1]]
+            if v.kind == 'cexpr' and len(v.uses) == 1 and v.term == '(.var "%s")' % v.uses[0] and self.vars[v.uses[0]][1] == v.uses[0]:
+                return v
+        return None
+
+    def assign_local(self, target, rhs):
+        ln = target.uses[0]
+        c = self.to_cexpr(rhs)
+        uses = merge_uses(target, c)
+        xp, xv = self.xpxv(uses)
+        self.body.emit('let env ← block NT BT chk g %s %s [(.assign "%s" %s)]' % (xp, xv, ln, c.term))
+        self.body.emit('let %s ← getVar env "%s"' % (ln, ln))
+        self.body.emit('let %s := %s.bits' % (ln, ln))
+        self.last_hoist = None
+
+    def expr_stmt(self, e):
+        if e[0] == 'voidcast':
+            return
+        if e[0] == 'assign':
+            tgt = self.local_target(e[2])
+            if tgt is None:
+                raise ExtractError('assignment to something else than a local integer variable')
+            rhs = self.ex(e[3])
+            if e[1] != '=':
+                rhs = self.binop(e[1][:-1], tgt, rhs)
+            self.assign_local(tgt, rhs)
+            return
+        if e[0] in ('post', 'un') and e[1] in ('++', '--'):
+            tgt = self.local_target(e[2])
+            if tgt is None:
+                raise ExtractError('%s on something else than a local integer variable' % e[1])
+            self.assign_local(tgt, self.binop(e[1][0], tgt, V(INT('int'), 'cexpr', '(.lit .i32 1)')))
+            return
+        v = self.ex(e)
+        if v.ty[0] == 'setter':
+            if v.ty[1] != 'NT':
+                raise ExtractError('the blockLength setter of the header is not modelled')
+            self.needs.add('write')
+            w = 'setNumInGroup NT lay buf hoff %s' % v.cval
+            if self.writes == 0:
+                self.body.emit('let mbuf := %s' % w)
+            else:
+                self.body.emit('let mbuf := mbuf.bind (fun buf => %s)' % w)
+            self.last_hoist = ('mbuf', w, len(self.body.lines) - 1, True) if self.writes == 0 else None
+            self.writes += 1
+            return
+        if v.ty == ('buf',):
+            if v.term != 'mbuf':
+                self.body.lines[-1] = self.body.lines[-1].replace('let %s ←' % v.term, 'let mbuf ←', 1)
+                if self.last_hoist and self.last_hoist[0] == v.term:
+                    self.last_hoist = ('mbuf',) + self.last_hoist[1:]
+            return
+        # a call whose result is discarded: its effects (checks) were emitted
+
+    def finish_return(self, term):
+        lh = getattr(self, 'last_hoist', None)
+        if lh and lh[0] == term and lh[2] == len(self.body.lines) - 1:
+            self.body.lines.pop()
+            self.body.emit(('return %s' % lh[1]) if lh[3] else lh[1])
+        else:
+            self.body.emit('return %s' % term)
+
+    def ret(self, e):
+        r = self.cret
+        self.returned = True
+        if e is None:
+            if r != VOID:
+                raise ExtractError('return without a value')
+            return
+        if r == VOID:
+            raise ExtractError('a void function returns a value')
+        if e[0] == 'brace' and e[1] is None:
+            if r[0] != 'iter':
+                raise ExtractError('braced return in a function that returns %s' % self.m.ret)
+            v = self.construct_iter(r[1], e[2])
+        else:
+            v = self.ex(e)
+        if r == DIM:
+            if v.ty != DIM:
+                raise ExtractError('returns a %s value, declared Dimension' % (v.ty[0],))
+            self.body.emit('return %s' % v.term)
+        elif r[0] == 'iter':
+            if not (v.kind == 'lean' and v.ty[0] == 'iter' and v.ty[1] == r[1]):
+                raise ExtractError('returns a %s value, declared iterator' % (v.ty[0],))
+            self.finish_return(v.term)
+        elif r == ENTRY:
+            if v.ty != ENTRY:
+                raise ExtractError('returns a %s value, declared reference' % (v.ty[0],))
+            self.finish_return(v.term) if re.fullmatch(r'\w+', v.term) else self.body.emit('return %s' % v.term)
+        elif r == INT('bool'):
+            if v.kind == 'lean' and v.ty == INT('bool'):
+                self.body.emit('return %s' % v.term)
+            else:
+                c = self.to_cexpr(v)
+                xp, xv = self.xpxv(c.uses)
+                self.body.emit('truth NT BT g %s %s %s' % (xp, xv, c.term))
+        elif r == INT('size_t'):
+            tgt = v if (v.kind == 'cexpr' and v.ty == r and len(v.uses) == 1 and v.term == '(.var "%s")' % v.uses[0]
+                        and self.vars[v.uses[0]][1] == v.uses[0]) else None
+            if tgt is not None:
+                self.body.emit('return %s' % tgt.uses[0])
+            else:
+                c = self.convert_to(v, r)
+                xp, xv = self.xpxv(c.uses)
+                name = self.body.fresh('r')
+                self.body.emit('let %s ← value NT BT g %s %s %s' % (name, xp, xv, c.term))
+                self.body.emit('return %s.bits' % name)
+        elif r[0] in ('int', 'wrap'):
+            c = self.convert_to(v, r)
+            xp, xv = self.xpxv(c.uses)
+            self.body.emit('value NT BT g %s %s %s' % (xp, xv, c.term))
+        else:
+            raise ExtractError('return type %s' % self.m.ret)
+
+    def assigned_locals(self, stmts):
+        out = []
+
+        def walk(x):
+            if isinstance(x, tuple):
+                if x and x[0] == 'assign' or (x and x[0] in ('post', 'un') and len(x) > 2 and x[1] in ('++', '--')):
+                    t = self.local_target(x[2])
+                    if t is not None and t.uses[0] not in out:
+                        out.append(t.uses[0])
+                for y in x:
+                    walk(y)
+            elif isinstance(x, list):
+                for y in x:
+                    walk(y)
+        walk(stmts)
+        return out
+
+    def rangefor(self, name, rng, body):
+        if not is_this_deref(rng) or self.kind != 'fwd':
+            raise ExtractError('only `for(auto x : *this)` over a group with forward iterators is translated here')
+        icls = ITER_CLASS['fwd']
+        inc = self.model.translate(icls, 'inc')
+        ne = self.model.translate(icls, 'ne')
+        deref = self.model.translate(icls, 'deref')
+        if not deref.pure or inc.pure or not ne.repr == 'bool':
+            raise ExtractError('the iterator operations do not have the shape the range-for combinator expects')
+        self.needs |= {'fuel'} | (inc.needs & {'esize'})
+        b = self.call_method('begin', [])
+        e_ = self.call_method('end', [])
+        state = self.assigned_locals(body)
+        if len(state) > 1:
+            raise ExtractError('a loop that updates more than one local variable is not translated')
+        ev = self.body.fresh(name)
+        ops = '(Fwd.ne NT) (Fwd.deref chk) (Fwd.inc NT BT chk%s)' % (' esize' if 'esize' in inc.needs else '')
+        sv = state[0] if state else None
+        if sv:
+            self.body.emit('let %s ← rangeFor %s %s (fun %s %s => do' % (sv, ops, e_.term, ev, sv))
+        else:
+            self.body.emit('let _ ← rangeFor %s %s (fun %s (_ : Unit) => do' % (ops, e_.term, ev))
+        saved_env = dict(self.env)
+        self.env[name] = V(ENTRY, 'lean', ev)
+        self.body.ind += 2
+        try:
+            for x in body:
+                self.stmt(x)
+            if self.returned:
+                raise ExtractError('return inside a loop is not translated here')
+            self.body.emit('pure %s) fuel %s %s' % ((sv, b.term, sv) if sv else ('()', b.term, '()')))
+        finally:
+            self.body.ind -= 2
+            self.env = saved_env
+        self.last_hoist = None
+
+    # ---- whole method
+    def run(self):
+        out = MethodOut()
+        out.ns, out.name, out.line, out.text = self.ns, lean_name(method_key(self.m)), self.m.line, self.m.text
+        self.last_hoist = None
+        binders_c = []
+        for ty, pname in self.m.params:
+            t = self.resolve(ty)
+            if t[0] == 'tag':
+                continue
+            if t[0] != 'int' or pname is None:
+                raise ExtractError('parameter `%s %s` has no model-I type' % (ty, pname))
+            ln = lean_ident(pname, self.body.used)
+            self.body.used.add(ln)
+            binders_c.append(ln)
+            self.cparams.append((ln, t))
+            self.body.emit('let %s := CVal.conv %s %s' % (ln, cty(t), ln))
+            self.vars[ln] = (cty(t), ln + '.bits')
+            self.env[pname] = V(t, 'cexpr', '(.var "%s")' % ln, uses=(ln,), cval=ln)
+        self.cret = self.resolve(self.m.ret)
+        if self.cret[0] == 'unknown':
+            raise ExtractError('return type %s is not understood' % self.m.ret)
+        stmts = Parser(self.m.body).statements()
+        for s in stmts:
+            self.stmt(s)
+        r = self.cret
+        if not self.returned:
+            if r != VOID:
+                raise ExtractError('control reaches the end of a non-void function')
+            if self.writes:
+                self.finish_return('mbuf')
+            else:
+                self.body.emit('return ()')
+        if r == VOID:
+            out.repr, out.ret = ('buf', 'Outcome (Option (List Nat))') if self.writes else ('void', 'Outcome Unit')
+        elif r == DIM:
+            out.repr, out.ret = 'unit', 'Outcome Unit'
+        elif r == INT('size_t'):
+            out.repr, out.ret = 'nat', 'Outcome Nat'
+        elif r == INT('bool'):
+            out.repr, out.ret = 'bool', 'Outcome Bool'
+        elif r[0] in ('int', 'wrap'):
+            out.repr, out.ret = 'cval', 'Outcome CVal'
+        elif r[0] == 'iter':
+            out.repr, out.ret = 'iter', 'Outcome %s' % ITER_LEAN[r[1]]
+            r = ('iter', r[1])
+        elif r == ENTRY:
+            out.repr, out.ret = 'entry', 'Outcome Int'
+        else:
+            raise ExtractError('return type %s' % self.m.ret)
+        if self.writes:
+            self.needs.add('write')
+        b = '(NT BT : CTy) (chk : Bool)'
+        if 'write' in self.needs:
+            b += ' (lay : DimLayout)'
+        b += ' (g : Rt.Group)'
+        if 'write' in self.needs:
+            b += ' (buf : List Nat) (hoff : Nat)'
+        if 'esize' in self.needs:
+            b += ' (esize : Int → Nat)'
+        if 'fuel' in self.needs:
+            b += ' (fuel : Nat)'
+        for ln in binders_c:
+            b += ' (%s : CVal)' % ln
+        out.binders, out.lines, out.needs, out.cparams, out.cret = b, self.body.lines, set(self.needs), self.cparams, r
+        out.pure = False
+        return out
